@@ -1,4 +1,5 @@
 SPECIFICATION Spec
 CONSTANTS Scenarios <- ScStrict2
-INVARIANTS S1 S2 S3 S3b HonestSucceeds
+          ServerStrictRule = "peer"
+INVARIANTS S1 S2 S3 S3b S5 S6 HonestSucceeds
 CHECK_DEADLOCK FALSE
